@@ -1,11 +1,14 @@
 import BigtoolsModel.Driver.Small
+import BigtoolsModel.Driver.WigBed
 /-! `bbmodel <cases-file>`: answers every case of the line protocol with the executable model. -/
 namespace Drv
 
-def W_MERGE : Nat := 50000
+def W_MERGE : Nat := Gen.DATA_SIZE
 
 def runCase (c : Case) : List String :=
   match c.kind with
+  | "wig" => wigCase c
+  | "bed" => bedCase c
   | "tempbuf" => tempbuf c
   | "fileview" => fileview c
   | "chunks" => chunks c
